@@ -149,8 +149,9 @@ class Zombie:
 
     WAIT = 120.0
 
-    def __init__(self, sim, func, args, kwds, ctx, q, shared=None):
+    def __init__(self, sim, func, args, kwds, ctx, q, shared=None, blocked_by=None):
         self.sim = sim
+        self.blocked_by = blocked_by
         self.label = sim.fault_label(ctx.site, ctx.key)
         self.ctx = ctx
         self.q = q
@@ -211,6 +212,9 @@ class Zombie:
     def step(self, where=None):
         if self.finished or self.aborted:
             return
+        b = self.blocked_by
+        if b is not None and not (b.finished or b.aborted):
+            return  # still queued behind the job that occupies the worker
         before = self._snapshot()
         self._yielded.clear()
         self._go.set()
@@ -263,10 +267,11 @@ def _mol_key(mols, smarts=False):
 
 
 class SimAsyncResult:
-    def __init__(self, func, args, kwds):
+    def __init__(self, func, args, kwds, pool=None):
         self.func = func
         self.args = tuple(args)
         self.kwds = dict(kwds or {})
+        self.pool = pool
         self._done = False
         self._value = None
 
@@ -296,6 +301,24 @@ class SimAsyncResult:
             self._value = self.func(*self.args, **self.kwds)
             return self._value
         sim.event("job", ctx.site, list(ctx.key))
+        pool = self.pool
+        if pool is not None and pool.capacity is not None and timeout is not None:
+            busy = pool.live_occupants(sim)
+            if len(busy) >= pool.capacity:
+                # every worker of this pool is still busy with a job whose caller gave up
+                z0 = busy[0]
+                if z0.q > 0 and unit(sim.seed, "poolwait", z0.label, sim.fault_label(ctx.site, ctx.key)) < 0.5:
+                    for _ in range(100000):  # the earlier job finishes while we wait
+                        if z0.finished or z0.aborted:
+                            break
+                        z0.step(("poolwait",))
+                else:
+                    sim.fire({"site": ctx.site, "kind": "queued_timeout", "key": list(ctx.key)}, set(), record=False)
+                    shared = self.args[1] if len(self.args) > 1 and isinstance(self.args[1], dict) else None
+                    z = Zombie(sim, self.func, self.args, self.kwds, ctx, z0.q if z0.q > 0 else 0.0, shared, blocked_by=z0)
+                    pool.occupants.append(z)
+                    sim.advance(float(timeout))
+                    raise _real_mp.TimeoutError()
         f = sim.fault_for(ctx.site, ctx.key) if timeout is not None else None
         if f is not None and ctx.site == "mcs_job":
             sim.fire(f, ctx.rxn_keys)
@@ -303,6 +326,8 @@ class SimAsyncResult:
             q = 0.0 if hang else float(f.get("q", sim.zombie_q))
             shared = self.args[1] if isinstance(self.args[1], dict) else None
             z = Zombie(sim, self.func, self.args, self.kwds, ctx, q, shared)
+            if pool is not None:
+                pool.occupants.append(z)
             if not hang:
                 for _ in range(int(f.get("lines", 0))):
                     z.step(("prestep",))
@@ -335,11 +360,18 @@ class SimAsyncResult:
 
 
 class SimThreadPool:
+    """ThreadPool whose workers can stay occupied by jobs that timed out for their caller."""
+
     def __init__(self, processes=None, *a, **kw):
-        pass
+        self.capacity = int(processes) if processes else None
+        self.occupants = []
+
+    def live_occupants(self, sim):
+        self.occupants = [z for z in self.occupants if z.sim is sim and not z.finished and not z.aborted]
+        return self.occupants
 
     def apply_async(self, func, args=(), kwds=None, callback=None, error_callback=None):
-        return SimAsyncResult(func, args, kwds)
+        return SimAsyncResult(func, args, kwds, pool=self)
 
     def apply(self, func, args=(), kwds=None):
         return func(*args, **(kwds or {}))
